@@ -81,6 +81,8 @@ func c05exec(cw *caseWriter, tag string, in []uint64) {
 			}
 			if 2*cnt <= len(voters) {
 				cw.monitor("C05", tag, "commit-without-voter-majority", "step %d: commit %d held by %d of %d voters", step, q, cnt, len(voters))
+				// C07: a non-voter (or a server that is no longer a voter) is never counted in commitment
+				cw.monitor("C07", tag, "commit-without-voter-majority", "step %d: commit %d held by %d of %d voters (something that is not a voter was counted)", step, q, cnt, len(voters))
 			}
 			if q < start {
 				cw.monitor("C05", tag, "commit-below-start-index", "step %d: commit %d < startIndex %d", step, q, start)
